@@ -77,13 +77,10 @@ def _item_end(lines, i):
     raise Lost('unterminated item at line %d' % (i + 1))
 
 
-def extract(src_text):
-    lines = src_text.split('\n')
-    items = {}
-    notes = []
-
-    def take(kind, name, want_derive=None):
-        cands = [(i, a) for i, a in _find_items(lines, kind, name) if not any('cfg(windows)' in x for x in a)]
+def take_item(lines, items, notes, kind, name, want_derive=None, finder=None):
+    """extract one top-level item by name (non-windows variant) into items[name]"""
+    if True:
+        cands = [(i, a) for i, a in (finder or _find_items)(lines, kind, name) if not any('cfg(windows)' in x for x in a)]
         if len(cands) != 1:
             raise Lost('anchor lost: expected exactly one non-windows `%s %s` in %s, found %d' % (kind, name, SRC, len(cands)))
         i, attrs = cands[0]
@@ -117,6 +114,15 @@ def extract(src_text):
             notes.append('%s: attributes dropped: %s' % (name, ' '.join(dropped)))
         items[name] = {'first_line': i + 1, 'text': '\n'.join(out), 'pre': pre,
                        'sha256': hashlib.sha256('\n'.join(lines[i:e + 1]).encode()).hexdigest()}
+
+
+def extract(src_text):
+    lines = src_text.split('\n')
+    items = {}
+    notes = []
+
+    def take(kind, name, want_derive=None):
+        take_item(lines, items, notes, kind, name, want_derive)
 
     take('struct', 'ActionId', 'copy')
     take('struct', 'SigId', 'copy')
@@ -239,14 +245,22 @@ ALL_OBL = ['C05.V-UNREG-IFF-LIVE', 'C05.V-PUBLISH-IFF-CHANGED', 'C05.V-REMOVE-ON
 
 
 def run_registry(sc, unit, pid, tier):
+    return run_generated(sc, unit, build, 'registry_verus', 'zz_registry_verus.rs',
+                         [os.path.join(VDIR, f) for f in ('prelude_a.rs', 'prelude_b.rs', 'spec.rs', 'lemmas.rs', 'overlay.json')],
+                         'C05.V-NO-PANIC', ('C05.V-HISTORY',), ('verif_initial_registry',))
+
+
+def run_generated(sc, unit, build, UL, gen_name, scan, NOPANIC, LEMMA_OBLS, AUX_FNS):
+    """UL: unit label; NOPANIC: obligation that verifier-generated checks on lines of the real code are reported under;
+    LEMMA_OBLS: obligations proved by lemma functions outside the extracted functions; AUX_FNS: generated (non-extracted) functions"""
     out = {'cmds': [], 'discharged': {}, 'failed': {}, 'undecided': [], 'reports': [], 'n_checks': 0, 'solver_s': 0.0,
-           'scan': [os.path.join(VDIR, f) for f in ('prelude_a.rs', 'prelude_b.rs', 'spec.rs', 'lemmas.rs', 'overlay.json')], 'raw': ''}
+           'scan': scan, 'raw': ''}
     try:
         text, obl_at, fn_span, info = build(sc)
     except Lost as e:
-        out['undecided'].append('unit registry_verus: %s' % e)
+        out['undecided'].append('unit %s:' % UL + ' %s' % e)
         return out
-    gpath = os.path.join(sc.path, 'zz_registry_verus.rs')
+    gpath = os.path.join(sc.path, gen_name)
     open(gpath, 'w').write(text)
     keep = os.environ.get('SHV_KEEP_GEN')
     if keep:
@@ -258,7 +272,7 @@ def run_registry(sc, unit, pid, tier):
     try:
         p = subprocess.run(cmd, cwd=sc.path, stdout=subprocess.PIPE, stderr=subprocess.PIPE, text=True, timeout=unit.get('timeout_s', 600))
     except subprocess.TimeoutExpired:
-        out['undecided'].append('unit registry_verus: verus timed out')
+        out['undecided'].append('unit %s:' % UL + ' verus timed out')
         return out
     wall = time.time() - t0
     out['cmds'].append(' '.join(cmd).replace(gpath, '<generated from %s>' % SRC))
@@ -286,6 +300,10 @@ def run_registry(sc, unit, pid, tier):
         msg = d.get('message', '')
         sp = [s for s in d.get('spans', []) if s.get('is_primary')] or d.get('spans', [])
         line = sp[0]['line_start'] if sp else None
+        # a failed `ensures` is reported at the exit that violates it, with the clause as a secondary span
+        lab = [s['line_start'] for s in d.get('spans', []) if s.get('line_start') in obl_at]
+        if line not in obl_at and lab:
+            line = lab[0]
         if any(msg.startswith(r) for r in REFUTED):
             obl = None
             if line in obl_at:
@@ -300,8 +318,8 @@ def run_registry(sc, unit, pid, tier):
                     # an unlabelled helper assertion of the overlay failed: the proof, not the property, is in question
                     hard.append('%s in fn %s at overlay helper line: %s' % (msg, fn, src_line[:160]))
                     continue
-                obl = 'C05.V-NO-PANIC'   # a verifier-generated check on a line of the real code (assert!, overflow, unwrap)
-            refuted.setdefault(obl, {'harness': 'registry_verus', 'unit': unit['name'], 'desc': msg, 'loc': 'generated line %s: %s' % (line, glines[line - 1].strip()[:200] if line else ''),
+                obl = NOPANIC   # a verifier-generated check on a line of the real code (assert!, overflow, unwrap)
+            refuted.setdefault(obl, {'harness': UL, 'unit': unit['name'], 'desc': msg, 'loc': 'generated line %s: %s' % (line, glines[line - 1].strip()[:200] if line else ''),
                                      'function': next((f for f, (a, b) in fn_span.items() if line and a <= line <= b), '?'), 'engine': 'verus/z3'})
         else:
             hard.append(msg[:300])
@@ -311,7 +329,7 @@ def run_registry(sc, unit, pid, tier):
     if vr and not ne and nv < unit.get('min_verified', 1):
         hard.append('only %d functions verified, expected >= %d (vacuity guard)' % (nv, unit['min_verified']))
     if hard or not vr:
-        out['undecided'].append('unit registry_verus: not decided (%s)' % ('; '.join(hard)[:1200] or (p.stderr[-600:] or 'no result')))
+        out['undecided'].append('unit %s:' % UL + ' not decided (%s)' % ('; '.join(hard)[:1200] or (p.stderr[-600:] or 'no result')))
         # refutations on labelled obligations are still refutations only if the file compiled and the rest is about them
         if not vr or any('not supported' in h or 'error[' in h or 'expected' in h for h in hard):
             return out
@@ -337,7 +355,7 @@ def run_registry(sc, unit, pid, tier):
             for o in list(refuted):
                 ln = int(re.search(r'generated line (\d+)', refuted[o]['loc']).group(1))
                 if ln not in lines2:
-                    out['undecided'].append('unit registry_verus: obligation %s failed with the default solver seed but not with seed %d: unstable proof, not a refutation' % (o, seed))
+                    out['undecided'].append('unit %s:' % UL + ' obligation %s failed with the default solver seed but not with seed %d: unstable proof, not a refutation' % (o, seed))
                     unstable.add(o)
                     del refuted[o]
         out['cmds'].append('(on refutation: repeated with smt.random_seed=1 and 2; a refutation counts only if it is reproduced under all three seeds)')
@@ -351,12 +369,12 @@ def run_registry(sc, unit, pid, tier):
             if o in refuted or o in unstable:
                 continue
             fns = {fn_of(l) for l, x in obl_at.items() if x == o}
-            if o == 'C05.V-NO-PANIC':
-                fns = set(fn_span) - {'verif_initial_registry'}
-            if o == 'C05.V-HISTORY':
+            if o == NOPANIC:
+                fns = set(fn_span) - set(AUX_FNS)
+            if o in LEMMA_OBLS:
                 fns = set()          # proved by the lemma functions (outside the extracted functions); errors there are `hard`
             if fns & bad_fns:
                 continue             # Verus stops exploring a function after its first errors: not decided in this run
-            out['discharged'][o] = {'harness': 'registry_verus', 'engine': 'verus/z3', 'n_checks': len([1 for x in obl_at.values() if x == o]) or 1,
+            out['discharged'][o] = {'harness': UL, 'engine': 'verus/z3', 'n_checks': len([1 for x in obl_at.values() if x == o]) or 1,
                                     'desc': '%d functions verified, %d errors; every assertion labelled %s holds for every registry state satisfying Inv (unbounded)' % (nv, ne, o)}
     return out
